@@ -221,16 +221,17 @@ _MORE = {
     "C07": "Further dimensions: the mitm-domains filter is a list of case-sensitive Go regexps with one exclusion and one (?i) rule, judged one rule at a time by an independent matcher against the CONNECT host as sent (names in upper/mixed case, sub-domains, IPv4/IPv6 literals, an IDN A-label); everything may leave through an upstream HTTP or HTTPS proxy. A target that does not speak TLS at all (answers the ClientHello like a clear-text HTTP server and would serve a clear-text request): 502, nothing reaches it, insecure mode or not. A configuration may leave the signing CA to the proxy (generated at start, published through MITMCACert; more often together with the 1 s validity): clients verify against the published certificate for as long as the instance runs.",
     "C09": "Further dimensions: DATA frames larger than the MAX_FRAME_SIZE the receiver announced, sent by a peer that does not cut them (the relay must cut them for the receiver); pressure schedules (several streams of one sender fill the receiver's connection window, which then grants small amounts) and early grants (WINDOW_UPDATE on a stream before anything was forwarded on it, body above the initial window).",
     "C10": "Further dimensions: as C09; a frame a conforming receiver would reject counts as a connection error at that receiver (nothing further decoded); the 'delivered when windows permit' clause is evaluated over the whole step bound. Header-block fragments may be empty: a HEADERS frame without block octets followed by CONTINUATION, a last CONTINUATION that only carries END_HEADERS.",
-    "C11": "Further dimensions: CONNECT being sent while shutdown runs, clients vanishing (RST), long sleeps across the drain deadline, in-flight connections closed only when the drain ended, listeners with PROXY protocol whose header is still pending. A request held at its origin may ask for a protocol upgrade and be answered 101: delivered, then closed, no tunnel set up during shutdown.",
-    "C12": "Further dimensions: 12 hostile replies to the TLS ClientHello (oversize / empty / unknown handshake records, alerts, application data or change_cipher_spec first, SSL 3.0 / SSLv2 / unknown-version records), a target whose dial is slow, a PROXY-protocol listener in front, instances with --log-http=body (a mid-body upstream error must still reach the client as a truncated message). Faults inside an established CONNECT tunnel (direct and via the upstream proxy): the target ends its reply after k bytes with FIN or RST; the client receives a prefix of those bytes (all of them for FIN) and a closed connection within 6 s.",
-    "C13": "Further dimensions: MITM handshakes abandoned / fed garbage / fed clear text, CONNECT reset while dialling, reset before the response, Upgrade with Connection token lists (incl. close), PROXY-protocol listeners with correct / silent / garbage / partial headers; dialer series are compared per series. The conntrack property also relays from sources that fail or are reset after N bytes (bytes moved before the error are counted).",
-    "C14": "Further dimensions: queries with an explicit host argument differing from the URL's host, repeated queries on the same pool, and 1-6 failing evaluations sent through the pool before the concurrent phase (a failed evaluation must leave the pool as sound as a successful one). Scripts may use one of five classic (non-strict) JavaScript constructs that leave the answer unchanged: undeclared assignment, legacy octal literal, this = global object in a plain call, arguments[] aliasing, with.",
+    "C11": "Further dimensions: CONNECT being sent while shutdown runs, clients vanishing (RST), long sleeps across the drain deadline, in-flight connections closed only when the drain ended, listeners with PROXY protocol whose header is still pending. A request held at its origin may ask for a protocol upgrade and be answered 101: delivered, then closed, no tunnel set up during shutdown. In forwarder mode an action may send the instances' shutdown signal a second time during the drain: the drain is aborted and everything closed by force, as after the deadline.",
+    "C12": "Further dimensions: 12 hostile replies to the TLS ClientHello (oversize / empty / unknown handshake records, alerts, application data or change_cipher_spec first, SSL 3.0 / SSLv2 / unknown-version records), a target whose dial is slow, a PROXY-protocol listener in front, instances with --log-http=body (a mid-body upstream error must still reach the client as a truncated message). Faults inside an established CONNECT tunnel (direct and via the upstream proxy): the target ends its reply after k bytes with FIN or RST; the client receives a prefix of those bytes (all of them for FIN) and a closed connection within 6 s. The upstream proxy's rejection names the request it answers (its length varies with it); a case may have 2-64 clients perform the exchange at the same time, each judged on its own, before it is performed once more alone.",
+    "C13": "Further dimensions: MITM handshakes abandoned / fed garbage / fed clear text, CONNECT reset while dialling, reset before the response, Upgrade with Connection token lists (incl. close), PROXY-protocol listeners with correct / silent / garbage / partial headers; dialer series are compared per series. The conntrack property also relays from sources that fail or are reset after N bytes (bytes moved before the error are counted). Answers that name an upgrade without switching (200 with an h2c advertisement, 426, 400; with and without the client asking for one).",
+    "C14": "Further dimensions: queries with an explicit host argument differing from the URL's host, repeated queries on the same pool, and 1-6 failing evaluations sent through the pool before the concurrent phase (a failed evaluation must leave the pool as sound as a successful one). Scripts may use one of five classic (non-strict) JavaScript constructs that leave the answer unchanged: undeclared assignment, legacy octal literal, this = global object in a plain call, arguments[] aliasing, with. (Net) a machine per case: a private network namespace (unshare -rn) with 0-4 bridge devices, up or down, carrying 0-3 addresses of known kinds (private, shared, public and documentation IPv4/IPv6; link-local and loopback ones that do not count); a helper process inside it evaluates myIpAddress() / myIpAddressEx() on a stand-alone resolver and through the pool. Reference: the Ex list is the set of global-unicast addresses of the interfaces that are up, myIpAddress() one of the IPv4 ones or 127.0.0.1; order not asserted; a machine that cannot be built makes the case inconclusive.",
     "C15": "Further dimensions: a second head stalled after k bytes on a kept-alive connection, pipelined heads, crowds of up to 40 peers, a stack whose idle limit (250 ms) is shorter than its read-header limit (700 ms); timing clauses are guarded by a starvation probe (a starved process makes the case inconclusive, not failed). A stall after an exchange whose origin took 0.6x or 1.3x the idle limit (earliest start of the idle timer: request sent + origin delay).",
     "C18": "Further dimensions: Via comments with nested parentheses and quoted pairs (independent list splitter), loop topologies reached through CONNECT with and without --connect-header Via, instances with an anonymous and with a configured name. Before a chain-connect case 2-48 CONNECTs may be sent at the same instant, each with a Via tag of its own: every tag reaches the upstream proxy exactly once, followed by the instance's element.",
     "C19": "Further dimensions: failing exchanges (their dumps are scanned like everything else), --proxy without userinfo (the upstream's password comes from --credentials), 1-4 extra exchange kinds, API request log in another mode than the proxy's, GOMAXPROCS=1, other spellings of the data: scheme for key material, user names equal to or containing their password (masked before scanning; the user must still appear as user:<placeholder>). A case may put the catch-all *:* entry first, with no entry naming the origin, so that it is the entry selected.",
     "C03": "Further dimensions: the aged-tunnel process builds its proxies with read-header 700 ms / idle 900 ms - both shorter than the age its tunnels reach - and half of its tunnels are Upgrade tunnels; both sides always have something to send once the tunnel has aged. A CONNECT on the direct, SOCKS5 and ConnectFunc routes may carry 'Content-Length: N' (documented as ignored): every byte after the head belongs to the tunnel.",
     "C08": "Further dimensions: (Stall, whole proxy) a PROXY-protocol listener, plain and under TLS, with 1-40 peers that never send or stop inside their header while a well-behaved peer connects: the late ones are ended by the header timeout, nobody else waits (stalled-client laboratory restricted to the header phase).",
-    "C20": "Further dimensions: limits below one I/O call of the proxy (2/8/24/100 KiB/s) observed for a 1.2 s window, PROXY-protocol and TLS listeners, instances with 1.2 s server read/write time-outs and transfers that cannot finish in time (the transfer may be cut, what passed obeys the limit). Cases with both limits at 1 MiB/s and the same volume moving in the opposite direction meanwhile: the measured direction finishes within ExtraMs + 2.5 s (three attempts).",
+    "C16": "Further dimensions: (Apply) the list is also applied the way the proxy applies it (Headers.ModifyRequest / ModifyResponse) to a request and a response with the same fields - possibly none - and must give what its rules give one after the other.",
+    "C20": "Further dimensions: limits below one I/O call of the proxy (2/8/24/100 KiB/s) observed for a 1.2 s window, PROXY-protocol and TLS listeners, instances with 1.2 s server read/write time-outs and transfers that cannot finish in time (the transfer may be cut, what passed obeys the limit). Cases with both limits at 1 MiB/s and the same volume moving in the opposite direction meanwhile: the measured direction finishes within ExtraMs + 2.5 s (three attempts). A case may tell the proxy to shut down gracefully 60-300 ms after the start (drain time 20 s): the transfers under way continue and stay subject to the limits.",
 }
 for _k, _v in _MORE.items():
     RULES[_k] = RULES[_k].rstrip() + " " + _v
